@@ -72,6 +72,31 @@ CHECKS = {
         ref="DESIGN.md section 2 C16"),
 }
 
+CHECKS.update({
+    "C18": dict(
+        technique="runtime monitoring: postcondition on every next_fast_len/prev_fast_len call against an independently enumerated "
+                  "table of all 7-smooth integers < 2^64; exhaustive sweep of a stated finite range plus neighbourhoods of smooth numbers",
+        text="Exploration (exhaustive on the stated finite range 0..2^17 quick / 0..2^22 thorough, sampled around 7-smooth numbers up to "
+             "2^62): each call's result is compared with the nearest 7-smooth neighbour from an independent table, with cold and warm "
+             "lru_cache; fast_len is checked to crop from the end to exactly that length with data and timestamps untouched.",
+        ref="DESIGN.md section 2 C18"),
+    "C19": dict(
+        technique="runtime monitoring: postcondition on every real_to_complex call: per-lane comparison with a direct longdouble DFT "
+                  "evaluation of the definition, real-part identity, tone mapping, linearity, dtype/shape rules, refusal of complex input",
+        text="Exploration: every call in a workload over lengths 0..65 (every parity), large and prime-ish lengths up to 131073, ranks "
+             "1-4, every axis, eight real dtypes and several input families is judged lane by lane against the definition.",
+        ref="DESIGN.md section 2 C19"),
+    "C20": dict(
+        technique="runtime monitoring: differential oracle for the 14 pb.fft names (numpy.fft double precision, explicit DFT matrix, "
+                  "scipy.fft for shape/dtype and bitwise identity) on NumPy and on Dask arrays built from counting sentinel chunks; "
+                  "tone-location oracle for STFT labels and round-trip oracle for ISTFT",
+        text="Exploration: each transform name is driven over ranks, dtypes, axis/axes, n/s and norm arguments on both backends; lazy "
+             "results must announce the reference shape/dtype, execute no input task before compute and equal the reference after; "
+             "STFT sub-channel labels are checked with tones of known absolute frequency for all alignments/parities; ISTFT(STFT) "
+             "must restore data, rate, start time and labels.",
+        ref="DESIGN.md section 2 C20"),
+})
+
 NOT_YET = {}
 
 
